@@ -496,6 +496,14 @@ class System:
         return (data, cache, ctx.nmut, ctx.nread, ctx.view is not None and _digest(ctx.view),
                 None if ctx.cm is None else tuple(ctx.cm), ctx.density, _digest(m.visual.face_colors) if m.visual.defined else None)
 
+    def nontrivial(self, ctx, hist):
+        """None: a read (nothing compared).  True: a mutator that left a live, non-empty cache behind,
+        i.e. at least one derived value was carried across the mutation and could be stale."""
+        if hist and hist[-1][0] == "read":
+            return None
+        c = ctx.m._cache
+        return bool(c.id_current == ctx.m.__hash__() and len(c.cache) > 0)
+
     def check(self, start, hist):
         if hist and hist[-1][0] == "read":
             return []
@@ -611,6 +619,8 @@ def main(run):
         parts[name] = r
         total["states"] += r["states"]
         total["transitions"] += r["transitions"]
+        run.tally.evaluations += r["oracle_transitions"]
+        run.tally.nontrivial_count += r["nontrivial_states"]
     cov = {
         "states": total["states"],
         "transitions": total["transitions"],
@@ -623,7 +633,7 @@ def main(run):
             {"start": "box", "history": [["read", "face_normals"], ["apply_transform", "aniso"]], "then": "every reader compared with a fresh mesh, forward and reverse order"},
             {"start": "tet", "history": [["read", "edges"], ["read", "vertex_normals"], ["invert"]]},
         ],
-        "rule": "history = (<= r single reads or ALL)* mutator, repeated d times; merged on (data digests, cache keys + value digests, overrides); after every mutator all readers are compared with Trimesh(vertices.copy(), faces.copy(), process=False) carrying the same overrides, on two fresh replays (forward / reverse read order)",
+        "rule": "history = (<= r single reads or ALL)* mutator, repeated d times; merged on (data digests, cache keys + value digests, overrides); after every mutator all readers are compared with Trimesh(vertices.copy(), faces.copy(), process=False) carrying the same overrides, on two fresh replays (forward / reverse read order). evaluations = transitions ending in a mutator (each compares every reader); distinct_nontrivial = distinct states reached by a mutator that left a live non-empty cache behind (a derived value was carried across the mutation)",
     }
     return run.finish(
         cov,
